@@ -5,6 +5,7 @@ import (
 	"go/ast"
 	"go/token"
 
+	"honnef.co/go/tools/analysis/code"
 	"honnef.co/go/tools/analysis/edit"
 	"honnef.co/go/tools/analysis/lint"
 	"honnef.co/go/tools/analysis/report"
@@ -52,7 +53,7 @@ func run(pass *analysis.Pass) (any, error) {
 		for c := range index.Calls(index.Object(fn.path, fn.name)) {
 			call := c.Node().(*ast.CallExpr)
 			if op, ok := call.Args[len(call.Args)-1].(*ast.UnaryExpr); ok && op.Op == token.SUB {
-				if lit, ok := op.X.(*ast.BasicLit); ok && lit.Value == "1" {
+				if lit, ok := op.X.(*ast.BasicLit); ok && lit.Value == "1" && code.PackageNameResolves(pass, call.Pos(), fn.path, fn.path) {
 					report.Report(pass, call.Fun, fmt.Sprintf("could use %s instead", fn.replacement),
 						report.Fixes(edit.Fix(fmt.Sprintf("Use %s instead", fn.replacement),
 							edit.ReplaceWithString(call.Fun, fn.replacement),
